@@ -39,6 +39,55 @@ const SCAFFOLD: &[(&str, &str)] = &[
     ("inside-function-statement-pair", "print: fn *X -> void : external\nT :: blob {{ a: int }}\nstart :: fn do\n    {}\nend\n"),
 ];
 
+/// short statements over untyped variables: sequences of them drive the inference engine through
+/// unusual unification orders (recursive types, functions applied to themselves, fields of unknowns)
+pub const STMT_MENU: &[&str] = &[
+    "x := y", "x = y", "y = x", "x = (x, 1)", "x = (y, x)", "x = [x]", "x = [y]", "y = (x,)", "x = x + y", "x + x", "x + y", "-x", "not x",
+    "x == y", "x < y", "x <= (x, 1)", "x.f", "x.f = y", "x.f = x", "x[0]", "x[0] == y", "x()", "x(x)", "x = x(y)", "y = fn -> x end", "x = fn a -> a end",
+    "x = fn a -> x end", "x(fn a -> a(a) end)", "z := x", "z := (x, y)", "x = z", "ret x", "ret (x, x)", "if x do y = x end", "loop x do break end",
+    "case x do A a -> y = a end else end end", "x = P { a: x }", "x = P { a: y }.a", "x = E.A x", "x = E.A y", "x <=> y", "x = x / y", "x = (x, y) * (y, x)",
+    "x += y", "x += (x, 1)", "x -> y()", "y' x",
+];
+
+fn stmt_program(seq: &[&str]) -> String {
+    let mut s = String::from("P :: blob(*T) { a: *T }\nE :: enum(*T)\n    A *T,\n    B,\nend\nf :: fn y do\n    x := y\n");
+    for st in seq {
+        s.push_str("    ");
+        s.push_str(st);
+        s.push('\n');
+    }
+    s.push_str("end\nstart :: fn do\nend\n");
+    s
+}
+
+fn nest_inputs() -> Vec<(String, String)> {
+    // block-forming constructs nested on one line and across lines
+    let forms: &[(&str, &str, &str)] = &[
+        ("if", "if true do ", " end"), ("if-else", "if true do else do ", " end"), ("loop", "loop false do ", " end"), ("do", "do ", " end"),
+        ("fn", "q :: fn do ", " end"), ("case", "case E.B do B -> ", " end else end end"), ("case-else", "case E.B do else ", " end end"), ("paren-if", "z := (if true do ", " 1 else 2 end)"),
+    ];
+    let leaves: &[&str] = &["", "x := 1", "break", "ret", "<!>", "1", "// c"];
+    let mut v = Vec::new();
+    let hdr = "E :: enum\n    A,\n    B,\nend\n";
+    for (n1, o1, c1) in forms {
+        for leaf in leaves {
+            for sep in [" ", "\n"] {
+                let body = format!("{}{}{}", o1, leaf, c1).replace(' ', sep).replace("\n\n", "\n");
+                let _ = body;
+                v.push((format!("nest {} [{}] sep={:?}", n1, leaf, sep), format!("{}start :: fn do\n    {}{}{}\nend\n", hdr, o1, leaf, c1)));
+            }
+            for (n2, o2, c2) in forms {
+                v.push((format!("nest {}>{} [{}]", n1, n2, leaf), format!("{}start :: fn do\n    {}{}{}{}{}\nend\n", hdr, o1, o2, leaf, c2, c1)));
+                v.push((format!("nest {}>{} [{}] multi-line", n1, n2, leaf), format!("{}start :: fn do\n    {}\n{}\n{}\n{}\n{}\nend\n", hdr, o1.trim_end(), o2.trim_end(), leaf, c2.trim_start(), c1.trim_start())));
+                for (n3, o3, c3) in forms.iter().take(4) {
+                    v.push((format!("nest {}>{}>{} [{}]", n1, n2, n3, leaf), format!("{}start :: fn do\n    {}{}{}{}{}{}{}\nend\n", hdr, o1, o2, o3, leaf, c3, c2, c1)));
+                }
+            }
+        }
+    }
+    v
+}
+
 #[derive(Clone, Debug)]
 pub enum Part {
     Seq { len: usize, nl: bool },
@@ -104,6 +153,8 @@ pub struct Space {
     seed_edits: Vec<(usize, Vec<(usize, usize)>, u64)>,
     projects: Vec<(String, Files, bool)>,
     ladders: Vec<(String, String)>,
+    nests: Vec<(String, String)>,
+    stmt_len: usize,
     thorough: bool,
 }
 
@@ -151,6 +202,14 @@ fn project_shapes() -> Vec<(String, Files, bool)> {
     add("enum-in-function", &[(MAIN, format!("{}start :: fn do\n    E :: enum\n        A,\n    end\nend\n", hdr))]);
     add("external-in-function", &[(MAIN, format!("{}start :: fn do\n    q: int : external\nend\n", hdr))]);
     add("use-in-function", &[(MAIN, format!("{}start :: fn do\n    use a\nend\n", hdr)), ("/p/a.sy", "x :: 1\n".to_string())]);
+    for odd in ["/", "", "main.sy", "./main.sy", "/p/../p/main.sy", "/p/", "nodir/main.sy"] {
+        let mut m = Files::new();
+        m.insert(MAIN.to_string(), format!("{}{}", hdr, start));
+        m.insert("main.sy".to_string(), format!("{}{}", hdr, start));
+        m.insert("./main.sy".to_string(), format!("{}{}", hdr, start));
+        m.insert("\u{0}main-path".to_string(), odd.to_string());
+        v.push((format!("main-path {:?}", odd), m, true));
+    }
     v
 }
 
@@ -216,7 +275,12 @@ impl Space {
         parts.push(("projects".to_string(), projects.len() as u64));
         let ladders = ladder_inputs(64);
         parts.push(("ladders".to_string(), ladders.len() as u64));
-        Space { parts, seeds, seed_edits, projects, ladders, thorough }
+        let nests = nest_inputs();
+        parts.push(("nests".to_string(), nests.len() as u64));
+        let stmt_len = if thorough { 3 } else { 2 };
+        let nm = STMT_MENU.len() as u64;
+        parts.push(("stmts".to_string(), (1..=stmt_len as u32).map(|l| nm.pow(l)).sum()));
+        Space { parts, seeds, seed_edits, projects, ladders, nests, stmt_len, thorough }
     }
 
     pub fn total(&self) -> u64 {
@@ -322,6 +386,26 @@ impl Space {
                 let (id, text) = &self.ladders[i as usize];
                 return (format!("ladder {}", id), one_file(text), true);
             }
+            if name == "nests" {
+                let (id, text) = &self.nests[i as usize];
+                return (id.clone(), one_file(text), true);
+            }
+            if name == "stmts" {
+                let nm = STMT_MENU.len() as u64;
+                let mut len = 1u32;
+                let mut k = i;
+                while k >= nm.pow(len) {
+                    k -= nm.pow(len);
+                    len += 1;
+                }
+                let _ = self.stmt_len;
+                let mut seq = Vec::new();
+                for _ in 0..len {
+                    seq.push(STMT_MENU[(k % nm) as usize]);
+                    k /= nm;
+                }
+                return (format!("stmts {:?}", seq), one_file(&stmt_program(&seq)), true);
+            }
         }
         panic!("index out of range");
     }
@@ -329,7 +413,13 @@ impl Space {
 
 /// the judged observation for one input, in-process part (panic / shape / rendering)
 pub fn judge_inprocess(files: &Files, no_std: bool, scratch: Option<&std::path::Path>) -> Option<(String, String)> {
-    let main = if files.contains_key(MAIN) { MAIN.to_string() } else { files.keys().next().unwrap().clone() };
+    let main = if let Some(p) = files.get("\u{0}main-path") {
+        p.clone()
+    } else if files.contains_key(MAIN) {
+        MAIN.to_string()
+    } else {
+        files.keys().next().unwrap().clone()
+    };
     // reader: in-memory first, then the real file system (corpus seeds import their neighbours)
     let mut args = sylt::Args::default();
     args.args = vec![main.clone()];
@@ -448,10 +538,10 @@ pub fn worker(args: &[String]) -> i32 {
         let ms = t0.elapsed().as_millis() as u64;
         let us = t0.elapsed().as_micros() as u64;
         let is_ladder = desc.starts_with("ladder ");
-        if f.is_some() || ms > 1500 || is_ladder {
+        // slowness below the hang deadline is not a verdict (it depends on machine load)
+        if f.is_some() || is_ladder {
             let (sig, detail) = match f {
                 Some(x) => x,
-                None if ms > 1500 => ("slow".into(), format!("took {} ms", ms)),
                 None => ("timing".into(), String::new()),
             };
             let doc = json!({"i": i, "sig": sig, "detail": detail, "desc": desc, "ms": ms, "us": us}).to_string();
